@@ -106,6 +106,37 @@ theorem C11_layer_write_read_through_cell {s s' : State} (h : Reach s) {l : Nat}
       · simp [Arr.set, hne, State.value]
     · rfl
 
+/-- When a single-cell write is accepted (the write theorems above start from an accepted write): through the layer iff
+    the layer exists and the index is inside its shape, through the cell attribute of an attached name iff the cell
+    exists, through a reference iff it is held and the index is inside the array's shape — `IndexError` otherwise,
+    whatever the value (numpy casts any value of the op language into any of the three dtypes). -/
+theorem C11_single_cell_write_accepted_iff {s : State} (h : Reach s) :
+    (∀ l c v, (layerSet s l c v).2 = .ok ↔ l < s.nLayers ∧ inBounds (s.layers l).dims c = true) ∧
+    (∀ n l c v, s.named? n = some l → ((cellSet s n c v).2 = .ok ↔ inBounds s.dims c = true)) ∧
+    (∀ hd c v, (hset s hd c v).2 = .ok ↔ ∃ a d, s.handles.lookup hd = some (a, d) ∧ inBounds d c = true) := by
+  have hw := h.wf
+  refine ⟨fun l c v => ?_, fun n l c v hn => ?_, fun hd c v => ?_⟩
+  · unfold layerSet State.layer?
+    by_cases hl : l < s.nLayers <;> by_cases hc : inBounds (s.layers l).dims c = true <;> simp [hl, hc]
+  · have hdims := hw.att_dims n l hn
+    unfold cellSet
+    split
+    · next hi =>
+      have hfree := hw.att_free hi n l hn
+      by_cases hc : inBounds s.dims c = true <;> simp [hc, hfree]
+    · rw [hn]
+      simp only [hdims]
+      by_cases hc : inBounds s.dims c = true <;> simp [hc]
+  · unfold hset
+    cases hx : s.handles.lookup hd with
+    | none => simp
+    | some p =>
+      obtain ⟨a, d⟩ := p
+      by_cases hc : inBounds d c = true
+      · simp only [hc]
+        exact ⟨fun _ => ⟨a, d, rfl, hc⟩, fun _ => by simp⟩
+      · simp [hc]
+
 /-- A layer's values change only by an op that writes to *that* layer (`Op.mayWrite`: through the layer,
     through the cell attribute of a name attached to it, through a reference aliasing its current array,
     or — the built-in `empty` layer — by the grid when agents move).  Creating, attaching, detaching and
@@ -493,6 +524,28 @@ theorem C11_modify_ufunc_typed {s : State} {l : Nat} (hl : l < s.nLayers) (vec :
   all_goals (rcases Int.le_total (4 * v) (4 * raw) with h | h <;>
     simp only [Int.max_eq_right, Int.max_eq_left, Int.min_eq_left, Int.min_eq_right, h, e4])
 
+/-- … and for `×`: whenever the exact product of the two numbers is again a multiple of 1/4 (always for an integral
+    operand — what the harness uses — but not for 0.25 × 0.25) the new entry *is* the product.  Without that the model's
+    entry is the product cut to quarters, which is not numpy's value: such operands are outside the model. -/
+theorem C11_ufunc_mul_exact (d : DType) (x : Val) (v : Int) (rd : DType)
+    (hr : UOp.mul.result d x.ty = some rd) (hnb : rd ≠ .bool)
+    (hdiv : (4 : Int) ∣ quarters d v * quarters x.ty x.raw) :
+    4 * quarters rd (UOp.mul.apply d x v) = quarters d v * quarters x.ty x.raw := by
+  obtain ⟨ty, raw⟩ := x
+  have key : ∀ a : Int, (4 : Int) ∣ a → 4 * a.tdiv 4 = a := fun a h => Int.mul_tdiv_cancel' h
+  have e4 : ∀ a : Int, (4 * a).tdiv 4 = a := tdiv4_mul
+  have e16 : ∀ a b : Int, (4 * a * (4 * b)).tdiv 4 = 4 * (a * b) := by
+    intro a b
+    have : 4 * a * (4 * b) = 4 * (4 * (a * b)) := by grind
+    rw [this, e4]
+  cases d <;> cases ty <;> simp [UOp.result, DType.join, DType.rank] at hr <;> subst hr <;>
+    simp [UOp.apply, UOp.result, DType.join, DType.rank, quarters, fromQuarters, e4, e16] at hnb hdiv ⊢
+  all_goals first | exact key _ hdiv | grind
+
+/-- 1.5 × 2.0 = 3.0 is inside the hypothesis, 0.25 × 0.25 is not (and there the model's 0 is not numpy's 0.0625) -/
+example : (4 : Int) ∣ quarters .float 6 * quarters .float 8 ∧ UOp.mul.apply .float ⟨.float, 8⟩ 6 = 12 ∧
+    ¬ (4 : Int) ∣ quarters .float 1 * quarters .float 1 := by decide
+
 /-- Over any history the dtype of a layer changes only when a typed `modify_cells` re-points that very
     layer (`Op.mayRetype`) — single-cell writes of any type, `set_cells`, writes through references, adding and
     removing layers, agent moves never change it — and it only ever widens (bool → int → float). -/
@@ -757,7 +810,7 @@ theorem C11_cell_protocol_names_reserved :
 
 /-- The built-in layer is an ordinary one: a fresh grid *is* the layer-less grid after
     `create_property_layer("empty", True, bool)`, a call the clash rule lets through. -/
-theorem C11_builtin_empty_is_created_layer (dims : List Nat) (cap : Nat) :
+theorem C11_builtin_empty_is_created_layer (dims : List Nat) (cap : Option Nat) :
     create { init .new dims cap with next := 0, nLayers := 0, attached := [], descr := [] } "empty" .bool 1
       = (init .new dims cap, .id 0) := by
   have hfree : "empty" ∉ reservedNames := C11_cell_protocol_names_reserved.2
@@ -808,7 +861,7 @@ theorem C11_layer_never_shadows_cell_attribute {s : State} (h : Reach s) (hi : s
     any interleaving of placements, moves and removals with layer operations, for SingleGrid, MultiGrid (several
     agents per cell) and cell spaces with capacities.  `C11_unsafe_write_is_the_only_way` below: the hypothesis cannot
     be dropped, and what it excludes is exactly the user's own write. -/
-theorem C11_empty_view_is_emptiness (impl : Impl) (dims : List Nat) (cap : Nat) (ops : List Op)
+theorem C11_empty_view_is_emptiness (impl : Impl) (dims : List Nat) (cap : Option Nat) (ops : List Op)
     (hs : safeHist (init impl dims cap) ops) :
     ∃ e, (run (init impl dims cap) ops).1.emptyArr? = some e ∧
       ∀ c, e c = boolInt ((run (init impl dims cap) ops).1.isEmptyCell c) := by
@@ -822,7 +875,7 @@ theorem C11_empty_view_is_emptiness (impl : Impl) (dims : List Nat) (cap : Nat) 
   · rfl
 
 /-- the two read-outs of the `empties` op (view and actual emptiness) coincide after such a history -/
-theorem C11_empties_readout_agrees (impl : Impl) (dims : List Nat) (cap : Nat) (ops : List Op)
+theorem C11_empties_readout_agrees (impl : Impl) (dims : List Nat) (cap : Option Nat) (ops : List Op)
     (hs : safeHist (init impl dims cap) ops) :
     empties (run (init impl dims cap) ops).1 =
       .emp (some (((cells (run (init impl dims cap) ops).1.dims).map
@@ -953,7 +1006,7 @@ theorem C11_select_list_is_mask {s : State} {q : Query} {list : List Coord} {mas
 /-- `only_empty=True` selects only cells that are actually empty, and misses none: after a history
     that leaves the built-in layer alone, the `only_empty` filter of `select_cells` is *exactly* "no agent
     is in the cell" (this is what defect S16 — and S1 for MultiGrid — broke). -/
-theorem C11_only_empty_is_actual_emptiness (impl : Impl) (dims : List Nat) (cap : Nat) (ops : List Op)
+theorem C11_only_empty_is_actual_emptiness (impl : Impl) (dims : List Nat) (cap : Option Nat) (ops : List Op)
     (hs : safeHist (init impl dims cap) ops) (q : Query) (hq : q.onlyEmpty = true) (c : Coord) :
     q.filters (run (init impl dims cap) ops).1 c ↔
       (∀ k ∈ q.masks, k c = true) ∧ (run (init impl dims cap) ops).1.isEmptyCell c = true ∧
@@ -1283,7 +1336,7 @@ theorem C11_select_within_saved_mask {s s' : State} {k : Nat} {m : Coord → Boo
 /-- a cell space with capacity 1: a layer written through the layer, re-pointed by a conditional
     `modify_cells`, an agent placed, a reference taken before a second re-pointing -/
 private def demo : State :=
-  (run (init .new [2, 3] 1)
+  (run (init .new [2, 3] (some 1))
     [.create "a" .int 0, .layerSet 1 [1, 2] 5, .layerSet 1 [0, 0] 5, .place 7 [0, 1],
      .modifyCells 1 true (some (· + 1)) (some (fun x => decide (x > 3))), .grab 0 1,
      .modifyCells 1 true (some (· * 2)) none]).1
@@ -1292,11 +1345,11 @@ example : Reach demo := reach_run (Reach.init ..) _
 /-- `C11_two_views_one_value` needs reachability: in a state whose descriptor registry lost the entry the dict still has,
     the cell attribute is gone while the layer is there — and after a history that adds, removes and re-adds layers
     (one of them under the name of a removed one) the two registries do agree -/
-example : cellGet { init .new [1, 1] 0 with descr := [] } "empty" [0, 0] = .err .attr ∧
-    layerGet { init .new [1, 1] 0 with descr := [] } 0 [0, 0] = .val 1 := by decide
-example : (run (init .new [1, 2] 0) [.create "a" .int 3, .newLayer "a" [1, 2] .int 5, .detach "a", .attach 2,
+example : cellGet { init .new [1, 1] none with descr := [] } "empty" [0, 0] = .err .attr ∧
+    layerGet { init .new [1, 1] none with descr := [] } 0 [0, 0] = .val 1 := by decide
+example : (run (init .new [1, 2] none) [.create "a" .int 3, .newLayer "a" [1, 2] .int 5, .detach "a", .attach 2,
     .detach "empty", .cellGet "a" [0, 1]]).2.getLast? = some (.val 5) ∧
-    (run (init .new [1, 2] 0) [.create "a" .int 3, .newLayer "a" [1, 2] .int 5, .detach "a", .attach 2,
+    (run (init .new [1, 2] none) [.create "a" .int 3, .newLayer "a" [1, 2] .int 5, .detach "a", .attach 2,
     .detach "empty"]).1.descr = [("a", 2)] := by decide
 example : demo.named? "a" = some 1 ∧ inBounds demo.dims [1, 2] = true := by decide
 example : cellGet demo "a" [1, 2] = .val 12 ∧ layerGet demo 1 [1, 2] = .val 12 ∧ hget demo 0 [1, 2] = .val 6 := by decide
@@ -1308,7 +1361,7 @@ example : selectCells demo ⟨[], true, [], [("a", some false)]⟩
     = .sel [[0, 2], [1, 0], [1, 1]] [false, false, true, true, true, false] := by decide
 /-- a history that never writes layer 1 (`noWrite`) although it creates and re-points another layer,
     detaches and re-attaches layer 1 and moves an agent: the value written before it is still read -/
-example : noWrite 1 (run (init .new [2, 2] 0) [.create "a" .int 0, .cellSet "a" [0, 1] 7]).1
+example : noWrite 1 (run (init .new [2, 2] none) [.create "a" .int 0, .cellSet "a" [0, 1] 7]).1
     [.create "b" .int 1, .modifyCells 2 true (some (· + 1)) none, .detach "a", .place 0 [0, 1], .attach 1] := by
   refine ⟨?_, ?_, ?_, ?_, ?_, trivial⟩
   · simp [Op.mayWrite]
@@ -1316,30 +1369,35 @@ example : noWrite 1 (run (init .new [2, 2] 0) [.create "a" .int 0, .cellSet "a" 
   · simp [Op.mayWrite]
   · simp only [Op.mayWrite, not_and]; intro _; decide
   · simp [Op.mayWrite]
-example : cellGet (run (init .new [2, 2] 0) [.create "a" .int 0, .cellSet "a" [0, 1] 7,
+example : cellGet (run (init .new [2, 2] none) [.create "a" .int 0, .cellSet "a" [0, 1] 7,
     .create "b" .int 1, .modifyCells 2 true (some (· + 1)) none, .detach "a", .place 0 [0, 1], .attach 1]).1 "a" [0, 1]
     = .val 7 := by decide
 /-- safe histories that hold a reference to the emptiness array: a cell space whose `grid.empty.data` is grabbed, read
     after a placement (the reference is live: it shows the 0), next to a write through a reference to *another* layer;
     a SingleGrid whose `empty_mask` is grabbed and read -/
-example : safeHist (init .new [2, 2] 1) [.grab 5 0, .place 0 [0, 1], .hget 5 [0, 1], .create "a" .int 0, .grab 1 1,
+example : safeHist (init .new [2, 2] (some 1)) [.grab 5 0, .place 0 [0, 1], .hget 5 [0, 1], .create "a" .int 0, .grab 1 1,
     .hset 1 [0, 0] 7, .move 0 [1, 1], .hdump 5, .empties] := by decide
-example : (run (init .new [2, 2] 1) [.grab 5 0, .place 0 [0, 1], .hget 5 [0, 1], .create "a" .int 0, .grab 1 1,
+example : (run (init .new [2, 2] (some 1)) [.grab 5 0, .place 0 [0, 1], .hget 5 [0, 1], .create "a" .int 0, .grab 1 1,
     .hset 1 [0, 0] 7, .move 0 [1, 1], .hdump 5]).2.getLast? = some (.arr [1, 1, 1, 0]) := by decide
-example : safeHist (init .single [2, 2] 0) [.grabMask 0, .place 3 [1, 0], .hget 0 [1, 0], .remove 3, .hdump 0] := by decide
+example : safeHist (init .single [2, 2] none) [.grabMask 0, .place 3 [1, 0], .hget 0 [1, 0], .remove 3, .hdump 0] := by decide
 /-- … and the one thing that is excluded: `grid.empty_mask[0, 0] = False` on an empty SingleGrid is unsafe in that state,
     the view is then wrong at that cell and `only_empty` misses it -/
-example : Op.safeAt (run (init .single [2, 2] 0) [.grabMask 0]).1 (.hset 0 [0, 0] 0) = false ∧
-    (run (init .single [2, 2] 0) [.grabMask 0, .hset 0 [0, 0] 0, .empties, .select [] true [] [] none]).2 =
+example : Op.safeAt (run (init .single [2, 2] none) [.grabMask 0]).1 (.hset 0 [0, 0] 0) = false ∧
+    (run (init .single [2, 2] none) [.grabMask 0, .hset 0 [0, 0] 0, .empties, .select [] true [] [] none]).2 =
     [.ok, .ok, .emp (some [0, 1, 1, 1]) [true, true, true, true],
      .sel [[0, 1], [1, 0], [1, 1]] [false, true, true, true]] := by decide
+/-- a capacity of 0 is a capacity (repair SC3): nobody enters, every cell stays empty; no capacity: everybody does -/
+example : (run (init .new [1, 2] (some 0)) [.place 0 [0, 0], .empties]).2 =
+    [.err .full, .emp (some [1, 1]) [true, true]] ∧
+    (run (init .new [1, 2] none) [.place 0 [0, 0], .place 1 [0, 0], .empties]).2 =
+    [.ok, .ok, .emp (some [0, 1]) [false, true]] := by decide
 /-- legacy MultiGrid with two agents in one cell: the mask turns true only when the last one leaves -/
-example : ((run (init .multi [2, 2] 0) [.place 0 [0, 1], .place 1 [0, 1], .remove 0, .empties, .remove 1, .empties]).2.drop 3)
+example : ((run (init .multi [2, 2] none) [.place 0 [0, 1], .place 1 [0, 1], .remove 0, .empties, .remove 1, .empties]).2.drop 3)
     = [.emp (some [1, 0, 1, 1]) [true, false, true, true], .ok, .emp (some [1, 1, 1, 1]) [true, true, true, true]] := by
   decide
 
 /-- the clash rule at work on a reachable state: `is_empty` is refused, `a` is attached and read through the cell -/
-example : (run (init .new [2, 2] 0) [.newLayer "is_empty" [2, 2] .int 0, .attach 1, .create "a" .int 3, .cellGet "a" [1, 1],
+example : (run (init .new [2, 2] none) [.newLayer "is_empty" [2, 2] .int 0, .attach 1, .create "a" .int 3, .cellGet "a" [1, 1],
     .cellGet "is_empty" [1, 1]]).2 = [.id 1, .err (.value .clash), .id 2, .val 3, .err .attr] := by decide
 example : "is_empty" ∈ reservedNames ∧ "a" ∉ reservedNames := by decide
 
@@ -1347,7 +1405,7 @@ example : "is_empty" ∈ reservedNames ∧ "a" ∉ reservedNames := by decide
     truncated toward zero (2.75 ↦ 2, -2.75 ↦ -2) and read back so through the layer; `set_cells` refuses the
     float; `modify_cells(np.add, 0.5, cond)` re-points the layer to a float array holding the same numbers
     (3 ↦ 3.5 where the condition held, 2 ↦ 2.0, -2 ↦ -2.0 elsewhere); now the same cell write is exact -/
-example : (run (init .new [2, 2] 0)
+example : (run (init .new [2, 2] none)
     [.create "a" .int 3, .cellSet "a" [0, 0] (.py ⟨.float, 11⟩), .layerGet 1 [0, 0],
      .cellSet "a" [0, 1] (.py ⟨.float, -11⟩), .cellGet "a" [0, 1],
      .setCells 1 (.py ⟨.float, 8⟩) none, .dtype 1,
@@ -1357,7 +1415,7 @@ example : (run (init .new [2, 2] 0)
      .ok, .val 11] := by decide
 /-- a bool layer: any non-zero number written through a cell is `True`; `set_cells(1)` is refused, `set_cells(True)`
     is not; numpy has no `bool - bool`; `bool + int` makes it an int layer -/
-example : (run (init .single [1, 2] 0)
+example : (run (init .single [1, 2] none)
     [.create "b" .bool 0, .cellSet "b" [0, 1] (.py ⟨.float, -2⟩), .dump 0, .setCells 0 (.py ⟨.int, 1⟩) none,
      .setCells 0 (.py ⟨.bool, 1⟩) (some fun x => x == 0), .modifyU 0 false .sub ⟨.bool, 1⟩ none,
      .modifyU 0 false .add ⟨.int, 2⟩ none, .dtype 0, .dump 0]).2 =
@@ -1374,18 +1432,18 @@ example : noRetype 1 [.cellSet "a" [0, 0] (.py ⟨.float, 11⟩), .modifyU 2 fal
 
 /-- `from_data` copies: the layer made from a reference to layer 1's array keeps 3 when the source cell is
     overwritten with 9, and has the source's dtype -/
-example : (run (init .new [1, 2] 0)
+example : (run (init .new [1, 2] none)
     [.create "a" .float 3, .grab 0 1, .fromData "b" 0, .hset 0 [0, 1] 9, .dump 2, .dump 1, .dtype 2, .attach 2,
      .cellGet "b" [0, 1]]).2 = [.id 1, .ok, .id 2, .ok, .arr [3, 3], .arr [3, 9], .dt .float, .ok, .val 3] := by decide
 /-- legacy `modify_cell(pos, np.add, 0.5)` on an int layer keeps the integer part; `modify_cells` promotes -/
-example : (run (init .multi [1, 2] 0)
+example : (run (init .multi [1, 2] none)
     [.create "a" .int 3, .modifyCellU 0 [0, 0] .add ⟨.float, 2⟩, .dump 0, .dtype 0,
      .modifyU 0 false .add ⟨.float, 2⟩ none, .dump 0, .dtype 0]).2 =
     [.id 0, .ok, .arr [3, 3], .dt .int, .ok, .arr [14, 14], .dt .float] := by decide
 
 /-- a von Neumann torus 3×3: the radius-1 neighbourhood of the corner wraps round; selecting the highest `a`
     with that mask looks only at the neighbourhood (the 9 at the far cell [1, 1] is not seen) -/
-example : (run (init .new [3, 3] 0)
+example : (run (init .new [3, 3] none)
     [.create "a" .int 0, .layerSet 1 [1, 1] 9, .layerSet 1 [0, 1] 5, .layerSet 1 [2, 0] 5,
      .nbhdMask 0 (some false) true [0, 0] false 1,
      .select [.saved 0] false [] [("a", some true)] none]).2.drop 4 =
@@ -1394,28 +1452,28 @@ example : (run (init .new [3, 3] 0)
 
 /-- a layer on two grids: written through the second grid's cell (2.75 into an int layer: 2), read through the
     first grid's cell; the second grid refuses `empty` and names of the cell class like the first -/
-example : (run (init .new [2, 2] 0)
+example : (run (init .new [2, 2] none)
     [.create "a" .int 0, .cellSet2 1 [1, 0] (.py ⟨.float, 11⟩), .cellGet "a" [1, 0], .cellGet2 1 [1, 0], .cellGet2 0 [0, 0],
      .newLayer "agents" [2, 2] .int 0, .cellSet2 2 [0, 0] 1]).2 =
     [.id 1, .ok, .val 2, .val 2, .err (.value .exists), .id 2, .err (.value .clash)] := by decide
 
 /-- conditional `set_cells` with an array value is positional: only the cell whose *old* value is 0 takes the
     source's entry *at that cell* (7), not the first entry of the source (5) -/
-example : (run (init .new [1, 3] 0)
+example : (run (init .new [1, 3] none)
     [.create "a" .int 1, .create "b" .float 0, .layerSet 1 [0, 0] 5, .layerSet 1 [0, 2] 7, .layerSet 2 [0, 1] 4, .grab 0 1,
      .setFrom 2 0 (some fun x => x == 0), .dump 2, .grab 1 2, .setFrom 1 1 none]).2.drop 6 =
     [.ok, .arr [20, 4, 28], .ok, .err .type] := by decide
 
 /-- 2.75 as the default of an int layer is 2 through both views; -0.5 as the default of a bool layer is True;
     True as the default of a float layer is 1.0 -/
-example : (run (init .new [1, 2] 0)
+example : (run (init .new [1, 2] none)
     [.create "a" .int (.py ⟨.float, 11⟩), .cellGet "a" [0, 1], .layerGet 1 [0, 1], .dtype 1,
      .create "b" .bool (.py ⟨.float, -2⟩), .cellGet "b" [0, 0], .create "c" .float (.py ⟨.bool, 1⟩), .dump 3]).2 =
     [.id 1, .val 2, .val 2, .dt .int, .id 2, .val 1, .id 3, .arr [4, 4]] := by decide
 
 /-- the layer's own selection and aggregates on a reachable state: list and mask of the cells above 2, sum, max, min;
     a layer without cells has a sum (0) but no maximum -/
-example : (run (init .new [1, 3] 0)
+example : (run (init .new [1, 3] none)
     [.create "a" .int 2, .layerSet 1 [0, 1] 5, .layerSelect 1 (fun x => decide (x > 2)), .aggregate 1 .sum,
      .aggregate 1 .max, .aggregate 1 .min, .newLayer "z" [0, 2] .int 0, .aggregate 2 .sum, .aggregate 2 .max]).2.drop 2 =
     [.sel [[0, 1]] [false, true, false], .val 9, .val 5, .val 2, .id 2, .val 0, .err (.value .empty)] := by decide
@@ -1423,7 +1481,7 @@ example : (run (init .new [1, 3] 0)
 /-- a free-standing layer without entries (new implementation): `np.vectorize` refuses a Python function and a condition
     (`ValueError`, nothing changes), a ufunc with its operand and an unconditional `set_cells` go through — the ufunc
     still re-types the layer — and no grid can take the layer (a second grid of its shape cannot even be built) -/
-example : (run (init .new [1, 1] 0)
+example : (run (init .new [1, 1] none)
     [.newLayer "z" [0, 2] .int 0, .modifyCells 1 true (some (· + 1)) none,
      .setCells 1 (.raw 1) (some fun x => decide (x > 0)), .modifyCells 1 false (some (· + 1)) none, .setCells 1 (.raw 1) none,
      .modifyCells 1 false none (some fun x => decide (x > 0)), .modifyCells 1 false none none,
@@ -1434,12 +1492,12 @@ example : (run (init .new [1, 1] 0)
      .err (.value .size0), .ok, .dt .float, .ok, .err (.value .size0), .ok,
      .err (.value .dims), .err (.value .dims), .sel [] [], .arr []] := by decide
 /-- the guard theorems are not vacuous either way: the layer above has a zero dimension, an attached one has not -/
-example : (0 : Nat) ∈ [0, 2] ∧ (0 : Nat) ∉ (init .new [2, 3] 1).dims := by decide
+example : (0 : Nat) ∈ [0, 2] ∧ (0 : Nat) ∉ (init .new [2, 3] (some 1)).dims := by decide
 
 /-- the code's own caveat, on a reachable state: an attribute given to the grid *before* the layer exists is not
     protected — `grid.a` then reads the user's object, while cell attribute and layer still are one value;
     after the layer exists the assignment is refused -/
-example : (run (init .new [1, 2] 0)
+example : (run (init .new [1, 2] none)
     [.gridSet "a", .create "a" .int 3, .dumpName "a", .cellGet "a" [0, 1], .create "b" .int 4, .gridSet "b",
      .dumpName "b", .detach "b", .gridSet "b"]).2 =
     [.ok, .id 1, .err .shadowed, .val 3, .id 2, .err .attr, .arr [4, 4], .ok, .ok] := by decide
